@@ -13,7 +13,7 @@ use crate::Ctx;
 use marwood::cell::Cell;
 
 const POOL: usize = 5;
-const CHARS: [char; 26] = ['a', 'b', 'Z', 'z', '0', ' ', 'é', 'ß', 'Ä', 'ä', 'λ', 'Σ', 'σ', 'ς', 'ǅ', '日', '本', '€', '\u{2003}', '𝄞', '😀', '\u{10ffff}', '\n', '"', '\\', 'İ'];
+const CHARS: [char; 33] = ['k', 'K', '\u{212a}', '\u{23a}', '\u{2c65}', '\u{e5}', '\u{212b}', 'a', 'b', 'Z', 'z', '0', ' ', 'é', 'ß', 'Ä', 'ä', 'λ', 'Σ', 'σ', 'ς', 'ǅ', '日', '本', '€', '\u{2003}', '𝄞', '😀', '\u{10ffff}', '\n', '"', '\\', 'İ'];
 
 #[derive(Clone, Debug, PartialEq)]
 enum MV {
@@ -260,6 +260,43 @@ fn gen_op(rng: &mut Rng, pool: &mut Vec<Vec<char>>) -> Op {
             let args: Vec<String> = idx.iter().map(|i| format!("s{}", i)).collect();
             let cls = if idx.len() == 2 { op.to_string() } else { format!("{}:variadic:{}", op, if r { "chain-holds" } else if first_pair { "later-pair-breaks" } else { "first-pair-breaks" }) };
             Op { expr: format!("({} {})", op, args.join(" ")), name: "string-compare", expect: Ok(MV::Bool(r)), arg_class: cls }
+        }
+        21 if rng.chance(1, 2) => {
+            // the second operand is a case variant of the first, written as a literal: every character is replaced by
+            // another member of its fold class (which may have another UTF-8 width: KELVIN SIGN / k, U+023A / U+2C65)
+            let op = *rng.pick(&["=", "<", ">", "<=", ">="]);
+            let v: Vec<char> = s
+                .iter()
+                .map(|ch| {
+                    let lower: Vec<char> = ch.to_lowercase().collect();
+                    let mut alts: Vec<char> = vec![*ch];
+                    if lower.len() == 1 {
+                        alts.push(lower[0]);
+                        for u in lower[0].to_uppercase() {
+                            if u.to_lowercase().collect::<Vec<char>>() == lower {
+                                alts.push(u);
+                            }
+                        }
+                        for extra in ['\u{212a}', '\u{212b}', '\u{2126}', '\u{23a}', '\u{1e9e}'] {
+                            if extra.to_lowercase().collect::<Vec<char>>() == lower {
+                                alts.push(extra);
+                            }
+                        }
+                    }
+                    *rng.pick(&alts)
+                })
+                .collect();
+            let fa: Vec<char> = s.iter().collect::<String>().to_lowercase().chars().collect();
+            let fb: Vec<char> = v.iter().collect::<String>().to_lowercase().chars().collect();
+            let r = match op {
+                "=" => fa == fb,
+                "<" => fa < fb,
+                ">" => fa > fb,
+                "<=" => fa <= fb,
+                _ => fa >= fb,
+            };
+            let widths = s.iter().collect::<String>().len() != v.iter().collect::<String>().len();
+            Op { expr: format!("(string-ci{}? s{} {})", op, si, strlit(&v)), name: "string-ci-compare-case-variant", expect: Ok(MV::Bool(r)), arg_class: format!("string-ci{}?:variant:{}", op, if widths { "other-utf8-length" } else { "same-utf8-length" }) }
         }
         21 => {
             // case-insensitive predicates are specified the R7RS way: through foldcase (evaluated by marwood)
